@@ -269,7 +269,7 @@ theorem init?_wf {fam w h extra sp} (hi : Space.init? fam w h extra = some sp) :
   split at hi
   · rename_i hnd
     injection hi with hi; subst hi
-    exact ⟨hnd, by simp, by simp⟩
+    exact ⟨hnd.2, by simp, by simp⟩
   · cases hi
 
 theorem not_has_iff {sp : Space} {a : Nat} : sp.has a = false ↔ a ∉ sp.placed.map (·.id) := by
@@ -576,9 +576,12 @@ theorem spaceAgents_located {sp : Space} (hw : sp.WF) : ∀ a ∈ spaceAgents sp
   obtain ⟨l, hl, _⟩ := hw.located a ((spaceAgents_perm hw).mem_iff.mp ha)
   exact ⟨l, hl⟩
 
-theorem drawSpace_eq {sp : Space} (hw : sp.WF) (heap : Heap) (p : Portrayal) :
+theorem drawSpace_eq {sp : Space} (hw : sp.WF) (hr : drawRaises sp = none) (heap : Heap) (p : Portrayal) :
     drawSpace sp heap p = .ok (scatter (drawEntries sp heap p)) := by
   unfold drawSpace
+  rw [hr]
+  simp only
+  unfold drawAgents
   rw [collect_eq_filterMap _ _ _ _ (spaceAgents_located hw)]
   simp only [drawEntries, List.map_filterMap]
   congr 3
@@ -871,6 +874,18 @@ theorem imshowRows_getElem (L : Layer) {r c : Nat} (hr : r < L.h) (hc : c < L.w)
 theorem hexColors_getElem (L : Layer) {r c : Nat} (hr : r < L.h) (hc : c < L.w) :
     (hexColors L)[r * L.w + c]? = some (L.at c r) :=
   getElem?_rows (fun r c => L.at c r) L.w L.h r c hr hc
+
+theorem hexMesh_getElem (w h : Nat) {r c : Nat} (hr : r < h) (hc : c < w) :
+    (hexMesh w h)[r * w + c]? = some (hexCenter c r) :=
+  getElem?_rows (fun r c => hexCenter c r) w h r c hr hc
+
+theorem hexMesh_length (w h : Nat) : (hexMesh w h).length = h * w := by
+  unfold hexMesh
+  induction h with
+  | zero => simp
+  | succ n ih =>
+    rw [List.range_succ, List.flatMap_append, List.length_append, ih]
+    simp [Nat.succ_mul]
 
 theorem transform_hex_eq_hexCenter (fam : Family) (hf : fam.isHex = true) (col row : Nat) :
     transform fam ⟨col, row⟩ = hexCenter col row := by
